@@ -18,12 +18,12 @@ MANIFEST = {
 }
 BUDGET = {'quick': 200, 'thorough': 2400}
 MISMATCH_BUDGET = 0.0
-RULE = ('sequences of 3-25 blocks built from a pool in which every numeric column is perturbed around its rounding threshold '
+RULE = ('THREE kinds of stores. (1) sequences of 3-25 blocks built by add_block from a pool in which every numeric column is perturbed around its rounding threshold '
         '(x0.4, x1, x3 of: 6th significant digit of amplitudes/offsets/phases, 1 us of delays and trapezoid times, 1 ns of '
         'dwell, 9th digit of raw shape samples), shapes shared between gradients, repeated events; then remove_duplicates() '
         '(copy), again on the copy, and in place. Oracles: every block decodes to the same events within the declared '
         'rounding, the original store is bit-identical afterwards and decodes as before, all referenced ids exist, every type tag (use of RF entries, t/g of gradients) referenced by a block is unchanged, ids are dense and ascending, any exception of get_block / remove_duplicates is an oracle failure, '
-        'second application is the identity, in-place equals copy. Correspondence: the extracted Coq model (digit tuples read '
+        'second application is the identity, in-place equals copy. (2) raster-valid histories (append + overwrite, so that unreferenced library entries stay) rebuilt with unique but gapped, non-ascending ids in the shape/gradient/RF/ADC libraries and the block table (explicit-id EventLibrary.insert in shuffled order), and/or passed through write(remove_duplicates=False) + read(remove_duplicates=False, detect_rf_use False/True): the same shape twice in the file ahead of RF shapes, RF rows without type entry, identical rows under different ids; with and without merges. (3) a hand-written file with gapped, unordered ids in every section. The same oracle on all. Correspondence: the extracted Coq model (digit tuples read '
         'from the source) must produce the same libraries, id maps and block table. non-trivial = dedup merged at least one pair')
 TRUSTED = ['numeric extraction inside register_* taken from the implementation',
            'doubles are handed to the model as their shortest round-trip decimals (injective; see common.D)']
@@ -252,10 +252,23 @@ def gen_case(rng, tier, rf_long_delay=False):
 
 def run_one(ctx, rng, n, tag):
     tw = gen_case(rng, ctx.tier)
+    return oracle_on_store(ctx, tw, n, tag)
+
+
+def oracle_on_store(ctx, tw, n, tag, extra=None):
+    """the complete C15 oracle + the model operations on the store held by the twin `tw` (however it was built)"""
     seq = tw.off                      # oracle reads on the cache-off twin
     # the replay carries the concrete history (operation tokens with exact rationals) besides the generator coordinates
     case = {'rng_stream': tag, 'index': n, 'seed': ctx.seed, 'tier': ctx.tier, 'blocks': len(seq.block_events),
             'history': list(tw.ops)}
+    if extra:
+        case.update(extra)
+    for name in ('rf_library', 'grad_library', 'adc_library', 'shape_library'):
+        ids = list(getattr(seq, name).data.keys())
+        if ids and ids != list(range(1, len(ids) + 1)):
+            ctx.count('store.%s.ids-gapped-or-unordered' % name)
+    if any(k not in seq.rf_library.type for k in seq.rf_library.data):
+        ctx.count('store.rf-without-type-entry')
     before = sm.state_dump(seq)
     ok, blocks_before = guarded(ctx, 'C15/decode-raises', case, 'get_block before remove_duplicates',
                                 lambda: {i: seq.get_block(i) for i in seq.block_events})
@@ -284,6 +297,12 @@ def run_one(ctx, rng, n, tag):
     ctx.count('merged_entries', merged)
     ctx.count('cases.with_merge' if merged else 'cases.no_merge')
     ctx.count('shape_ids_shift' if len(s2.shape_library.data) < len(seq.shape_library.data) else 'shape_ids_fixed')
+    gids = list(seq.grad_library.data.keys())
+    if gids and gids != list(range(1, len(gids) + 1)) and len(s2.grad_library.data) == len(gids):
+        ctx.count('store.grad-ids-gapped-and-no-gradient-merged')
+    if any(k not in seq.rf_library.type for k in seq.rf_library.data) and \
+            list(seq.shape_library.data.keys()) != list(s2.shape_library.data.keys()):
+        ctx.count('store.rf-untyped-and-shape-ids-move')
     ok, r = guarded(ctx, 'C15/refs', case, 'reference scan of the result', lambda: refs_ok(s2))
     if ok and r:
         ctx.fail('C15/refs', case, {'what': r})
@@ -336,6 +355,287 @@ def run_one(ctx, rng, n, tag):
                     'lib_sizes_before': [len(l['data']) for l in before['libs']],
                     'lib_sizes_after': [len(l['data']) for l in sm.state_dump(s2)['libs']]})
     return tw, case
+
+
+# ---- stores that do not come from add_block alone ---------------------------------------------------------------
+class FilePool(H.Pool):
+    """raster-valid events (so that write() accepts them) with amplitudes around the 6-digit threshold and arbitrary
+    gradients whose waveforms are equal up to floating-point noise (same shape twice in the file)"""
+
+    def arb(self, ch=None, first=0.0, last=0.0, delay=0.0, n=None):
+        import pypulseq as pp
+        r = self.rng
+        ch = ch or r.choice('xyz')
+        n = n or r.choice([8, 12, 20, 40])
+        w = 1e5 * np.sin(np.linspace(0, math.pi, n + 2)[1:-1]) ** r.choice([1, 2])
+        if r.random() < 0.6:
+            w = w.copy()
+            w[r.randrange(n)] *= 1 + r.choice([4e-13, -3e-13, 2e-12])       # far below the 9 digits of shape samples
+        return pp.make_arbitrary_grad(ch, np.asarray(w, dtype=float), first=0.0, last=0.0, delay=delay, system=self.lsys)
+
+    def trap(self, ch=None, delay=None):
+        import pypulseq as pp
+        r = self.rng
+        ch = ch or r.choice('xyz')
+        amp = r.choice([1e5, -1e5, 123456.7891, 123456.4, 123457.2, 123456.7893, 5e4])
+        return pp.make_trapezoid(ch, amplitude=amp, rise_time=r.choice([1e-4, 2e-4]), flat_time=r.choice([5e-4, 1e-3]),
+                                 fall_time=r.choice([1e-4, 2e-4]), delay=r.choice([0, 1e-4]) if delay is None else delay,
+                                 system=self.lsys)
+
+    def adc(self):
+        import pypulseq as pp
+        r = self.rng
+        return pp.make_adc(r.choice([16, 32]), dwell=r.choice([1e-5, 2e-5]), delay=r.choice([1e-4, 2e-5]),
+                           freq_offset=r.choice([0, 50.0, 50.00004]), phase_offset=r.choice([0, 0.25]), system=self.sys)
+
+    def rf(self):
+        import pypulseq as pp
+        r = self.rng
+        flip = r.choice([math.pi / 2, 0.3, 0.3 * (1 + 1e-8)])
+        kw = dict(delay=r.choice([1e-4, 2e-4]), freq_offset=r.choice([0, 123.4567, 123.45674]),
+                  phase_offset=r.choice([0, 0.5]), system=self.sys)
+        if self.use is not None:
+            kw['use'] = self.use
+        if r.random() < 0.7:
+            return pp.make_block_pulse(flip, duration=r.choice([1e-3, 2e-3, 3e-3]), **kw)     # several time shapes
+        return pp.make_sinc_pulse(flip, duration=r.choice([4e-5, 6e-5]), time_bw_product=r.choice([2, 4]), **kw)  # short: 40-60 samples
+
+
+def gen_valid_history(rng, system, n_blocks):
+    """raster-valid history: blocks appended, some overwritten (their library entries stay, unreferenced)"""
+    pool = FilePool(rng, system)
+    pool.use = rng.choice(USES)
+    tw = H.Twin(system)
+    order = rng.choice(['mixed', 'shapes-first'])
+    for b in range(n_blocks):
+        evs = []
+        want_rf = rng.random() < (0.45 if order == 'mixed' else (0.0 if b < n_blocks // 2 else 0.8))
+        for ch in 'xyz':
+            if rng.random() < 0.45:
+                evs.append(rng.choice([pool.trap, pool.arb, pool.arb, lambda c: pool.ext(c, 0.0, 0.0)])(ch))
+        if want_rf:
+            evs.append(pool.rf())
+        if rng.random() < 0.4:
+            evs.append(pool.adc())
+        if rng.random() < 0.25:
+            evs.append(pool.label())
+        if not evs:
+            evs.append(pool.delay())
+        tw.add(evs)
+    for _ in range(rng.choice([0, 0, 1, 2])):
+        ok_blocks = list(tw.off.block_events.keys())
+        if ok_blocks:
+            tw.set(rng.choice(ok_blocks), [pool.trap(rng.choice('xyz')), pool.delay()])
+    return tw
+
+
+def renumbered(seq, rng_seed, renumber_blocks=True):
+    """the same store with unique but gapped, non-ascending ids in the shape / gradient / RF / ADC libraries (entries
+    inserted with explicit ids in a shuffled order, as EventLibrary.insert allows and as files from other tools look),
+    references rewritten accordingly.  Deterministic in rng_seed so that both twins get the same store."""
+    import random
+    from collections import OrderedDict
+    from pypulseq.event_lib import EventLibrary
+    r = random.Random(rng_seed)
+    new = copy.deepcopy(seq)
+    new.block_cache = {}
+    maps = {}
+    for name in ('shape_library', 'grad_library', 'rf_library', 'adc_library'):
+        old_ids = list(getattr(seq, name).data.keys())
+        pool_ids = r.sample(range(1, 3 * len(old_ids) + 4), len(old_ids))
+        if r.random() < 0.3:
+            pool_ids = sorted(pool_ids)                      # gapped but ascending
+        maps[name] = dict(zip(old_ids, pool_ids))
+        maps[name][0] = 0
+    sm_ = maps['shape_library']
+    for name in ('shape_library', 'grad_library', 'rf_library', 'adc_library'):
+        lib = getattr(seq, name)
+        nl = EventLibrary(numpy_data=lib.numpy_data)
+        order = list(lib.data.keys())
+        r.shuffle(order)
+        for k in order:
+            d = lib.data[k]
+            t = lib.type.get(k, str())
+            if name == 'grad_library' and t == 'g':
+                d = (d[0], sm_[d[1]], sm_[d[2]]) + tuple(d[3:])
+            elif name == 'rf_library':
+                d = (d[0], sm_[d[1]], sm_[d[2]], sm_[d[3]]) + tuple(d[4:])
+            nl.insert(maps[name][k], d, t)
+        setattr(new, name, nl)
+    cols = ((1, 'rf_library'), (2, 'grad_library'), (3, 'grad_library'), (4, 'grad_library'), (5, 'adc_library'))
+    bmap = {}
+    ids = list(seq.block_events.keys())
+    for j, b in enumerate(ids):
+        bmap[b] = (3 * j + 2) if renumber_blocks else b
+    be, bd = OrderedDict(), OrderedDict()
+    for b in ids:
+        ev = np.array(seq.block_events[b]).copy()
+        for col, name in cols:
+            ev[col] = maps[name][int(ev[col])]
+        be[bmap[b]] = ev
+        bd[bmap[b]] = seq.block_durations[b]
+    new.block_events, new.block_durations = be, bd
+    new.next_free_block_ID = max(be.keys()) + 1 if be else 1
+    return new
+
+
+def adopt(system, on_seq, off_seq, label):
+    """a twin whose two objects are the given stores; the model gets the store as a Load operation"""
+    tw = H.Twin(system)
+    on_seq.use_block_cache, off_seq.use_block_cache = True, False
+    on_seq.block_cache, off_seq.block_cache = {}, {}
+    tw.on, tw.off = on_seq, off_seq
+    tw._record('read', 'load ' + sm.core_tokens(tw.on), [('ok', None), ('ok', None)])
+    return tw
+
+
+def through_file(ctx, case, seqs, detect_rf_use):
+    """write(remove_duplicates=False) + read(remove_duplicates=False) of each object; returns the loaded objects or None"""
+    import os
+    import tempfile
+    import pypulseq as pp
+    out = []
+    with tempfile.TemporaryDirectory(prefix='pvc15') as dn:
+        for j, s in enumerate(seqs):
+            fn = os.path.join(dn, 's%d.seq' % j)
+            ok, _ = guarded(ctx, 'C15/write-raises', case, 'write(remove_duplicates=False) of a raster-valid store',
+                            lambda: s.write(fn, create_signature=False, remove_duplicates=False))
+            if not ok:
+                return None
+            t = pp.Sequence(s.system, use_block_cache=s.use_block_cache)
+            ok, _ = guarded(ctx, 'C15/read-raises', case, 'read(remove_duplicates=False) of the file just written',
+                            lambda: t.read(fn, detect_rf_use=detect_rf_use, remove_duplicates=False))
+            if not ok:
+                return None
+            out.append(t)
+    return out
+
+
+def run_built(ctx, rng, n, tag):
+    """stores with gapped / non-ascending ids and stores that come from read()"""
+    system = H.mk_system(rng, 0)
+    tw0 = gen_valid_history(rng, system, rng.randint(3, 9))
+    how = rng.choice(['gapped', 'gapped', 'file', 'file', 'gapped+file'])
+    detect = rng.random() < 0.4
+    extra = {'built': how, 'detect_rf_use': detect, 'base_history': list(tw0.ops)}
+    case0 = dict(extra, rng_stream=tag, index=n, seed=ctx.seed, tier=ctx.tier)
+    on, off = tw0.on, tw0.off
+    if tw0.twin_diffs or not off.block_events:
+        ctx.evaluated((tag, n, 'skipped'))
+        return None, case0
+    if 'gapped' in how:
+        sd = rng.randrange(1 << 30)
+        rb = rng.random() < 0.6
+        ok, pair = guarded(ctx, 'C15/decode-raises', case0, 'explicit-id construction of the store',
+                           lambda: (renumbered(on, sd, rb), renumbered(off, sd, rb)))
+        if not ok:
+            return None, case0
+        on, off = pair
+    if 'file' in how:
+        pair = through_file(ctx, case0, (on, off), detect)
+        if pair is None:
+            ctx.evaluated((tag, n, 'file-failed'))
+            return None, case0
+        on, off = pair
+    ctx.count('built.' + how)
+    tw = adopt(system, on, off, how)
+    return oracle_on_store(ctx, tw, n, tag, extra=extra)
+
+
+HAND_FILE = """# Pulseq sequence file
+# written by hand: ids with gaps and in non-ascending order in every section
+
+[VERSION]
+major 1
+minor 4
+revision 2
+
+[DEFINITIONS]
+AdcRasterTime 1e-07
+BlockDurationRaster 1e-05
+GradientRasterTime 1e-05
+RadiofrequencyRasterTime 1e-06
+TotalDuration 0.0076
+
+[BLOCKS]
+1 100   0   7   0   0  4  0
+2 200   0   0   3  12  0  0
+3 200   0   0   0  12  0  0
+4 100   0   3   0   7  6  0
+5 100   9   0   0   0  0  0
+6  10   0  15   0   0  0  0
+7 100   2   0  15   0  0  0
+8  50   0   0   0  20  0  0
+
+[RF]
+9 250 11 4 0 100 0 0
+2 250.0001 11 4 0 100 0 0
+
+[GRADIENTS]
+15 100000 8 0 0
+20 100000 5 0 0
+
+[TRAP]
+12      -167598 210 1580 210   0
+ 7  1.31579e+06 240  520 240   0
+ 3       657895 240  520 240   0
+
+[ADC]
+6 64 10000 240 0 0
+4 32 10000 240 0 0
+
+[SHAPES]
+
+shape_id 11
+num_samples 2
+1
+1
+
+shape_id 4
+num_samples 2
+0
+0
+
+shape_id 8
+num_samples 4
+0.25
+0.5
+1
+0.5
+
+shape_id 5
+num_samples 4
+0.25
+0.5
+1.0000000001
+0.5
+
+"""
+
+
+def hand_file_stream(ctx):
+    """a legitimate hand-written file whose ids are unique but neither contiguous nor ascending; nothing merges among
+    the trapezoids, the two arbitrary gradients become equal once their (equal up to 1e-10) shapes are merged"""
+    import os
+    import tempfile
+    import pypulseq as pp
+    for detect in (False, True):
+        case = {'reproducer': 'hand-file', 'detect_rf_use': detect}
+        objs = []
+        with tempfile.TemporaryDirectory(prefix='pvc15') as dn:
+            fn = os.path.join(dn, 'hand.seq')
+            open(fn, 'w').write(HAND_FILE)
+            for cache in (True, False):
+                t = pp.Sequence(pp.Opts(), use_block_cache=cache)
+                ok, _ = guarded(ctx, 'C15/read-raises', case, 'read(remove_duplicates=False) of the hand-written file',
+                                lambda: t.read(fn, detect_rf_use=detect, remove_duplicates=False))
+                if not ok:
+                    return []
+                objs.append(t)
+        tw = adopt(pp.Opts(), objs[0], objs[1], 'hand-file')
+        tw2, c2 = oracle_on_store(ctx, tw, int(detect), 'hand-file', extra=case)
+        if tw2 is not None:
+            yield tw2, c2
 
 
 def known_finding_stream(ctx):
@@ -410,19 +710,31 @@ def rf_use_stream(ctx):
 
 
 def run(ctx):
-    n_cases = {'quick': 160, 'thorough': 4000}[ctx.tier]
-    rng = ctx.rng('near')
+    n_cases = {'quick': 100, 'thorough': 3000}[ctx.tier]
+    n_built = {'quick': 48, 'thorough': 1500}[ctx.tier]
     batch = []
-    for n in range(n_cases):
-        if ctx.out_of_time():
-            ctx.notes.append('time budget reached after %d cases' % n)
-            break
-        tw, case = run_one(ctx, rng, n, 'near')
+
+    def push(tw, case):
         if ctx.model_available and tw is not None:
             batch.append((tw, case))
         if len(batch) >= 40:
             flush(ctx, batch)
-            batch = []
+            del batch[:]
+
+    for tw, case in hand_file_stream(ctx):
+        push(tw, case)
+    rng = ctx.rng('near')
+    rng_b = ctx.rng('built')
+    # the two random streams are interleaved so that a time budget cuts both
+    nb = 0
+    for n in range(n_cases):
+        if ctx.out_of_time():
+            ctx.notes.append('time budget reached after %d cases' % n)
+            break
+        push(*run_one(ctx, rng, n, 'near'))
+        while nb < n_built and nb * n_cases <= n * n_built:
+            push(*run_built(ctx, rng_b, nb, 'built'))
+            nb += 1
     if batch:
         flush(ctx, batch)
     known_finding_stream(ctx)
@@ -443,10 +755,14 @@ def replay(ctx, case):
     if 'reproducer' in case:
         known_finding_stream(ctx)
         return {'reproducer': case['reproducer']}
-    rng = ctx.rng(case.get('rng_stream', 'near'))
+    if case.get('reproducer') == 'hand-file':
+        list(hand_file_stream(ctx))
+        return {'reproducer': 'hand-file'}
+    stream = case.get('rng_stream', 'near')
+    rng = ctx.rng(stream)
     sub = type(ctx)(ctx.id, case.get('tier', 'quick'), ctx.seed)
     for n in range(case['index'] + 1):
         sub.failures = []
-        run_one(sub, rng, n, 'near')
+        (run_built if stream == 'built' else run_one)(sub, rng, n, stream)
     ctx.failures += sub.failures
     return {'case': case}
